@@ -58,7 +58,7 @@ def main():
         "setup_cmd": "./mk.sh",
         "hooks": {
             "guard": "none",
-            "enable": "no hooks are committed to /repo: every check copies /repo's working tree to a scratch directory and redirects dial/listen/serve/exit/math-rand seeding and the types sync.Mutex/RWMutex/Pool/Map to a generated simhook package with a go/ast rewrite (tools/simgen), and appends per-file reset functions for package-level variables; /repo only receives fix: commits",
+            "enable": "no hooks are committed to /repo: every check copies /repo's working tree to a scratch directory and redirects dial/listen/serve/exit/math-rand seeding and the types sync.Mutex/RWMutex/Pool/Map/Once to a generated simhook package with a go/ast rewrite (tools/simgen), and appends per-file reset functions for package-level variables; /repo only receives fix: commits",
             "baseline_off_cmd": "cd /repo && GOFLAGS=-mod=mod GOPROXY=off go test -json -vet=off -count=1 -timeout 25m ./...",
             "source_commits": [],
             "add_only": True,
